@@ -4,7 +4,16 @@ Configuration-lattice explorer over G_sn: every combination of winning branches 
 representatives of "branch i wins".  Oracle: with hard selection SuperNet.eval()(x) == export().eval()(x); the exported module
 tree contains the winning branch of every block and none of the others and no combiner; every module outside choice blocks is
 the same object with unchanged parameters.
+
+Branch kinds include user blocks with an INTERNAL FORK (G_sn.gen_fork: the first layer's output is consumed twice inside the branch - as the
+last / first operand of a residual sum, as a member of a concat, one nesting level down), as losers and as winners, in blocks used once and twice.
+The "nothing of a losing branch survives" oracle looks at the exported module tree (named_modules) AND at the exported fx graph (no call_module /
+get_attr node whose target lies in a losing branch or is a combiner, no node left without users).
+Deep-copy protocol ('dc' in the case): the whole exploration runs on a copy.deepcopy() of the converted SuperNet, taken (1) right after construction,
+before any forward, (2) after the original was switched to eval / hard selection and ran a forward under no_grad, (3) after the original was
+exported once; the original is kept alive, is never written, and must come out of the exploration unchanged.
 """
+import copy
 import itertools
 
 import torch
@@ -18,17 +27,40 @@ from .c10 import _reps
 PID = 'C03'
 RULE = ('programs: G_sn - one block with every pair/triple (thorough: quadruple) of the 10 branch kinds (single conv layers, nn.Sequential, user blocks ending in a '
         'sub-module / in a functional op, nested blocks, depthwise-separable, Identity), blocks of 4..12 branches, blocks used twice, 2 and 3 blocks, blocks '
-        'changing the width; configurations: EVERY combination of winning branches x 3 representatives; non-trivial = every (program, winners, representative)')
-ASSUMPTIONS = ['"on every input" decided on a seeded witness batch', 'arg-max abstraction A2 (tie-free representatives with gaps >= 0.05)']
+        'changing the width; plus G_sn.gen_fork: 5 kinds of user blocks with an INTERNAL FORK (stem output consumed twice inside the branch: last / first operand '
+        'of a residual sum, last / first member of a concat, fork one nesting level down), each paired with each of the 10 plain kinds and with each other (so each is '
+        'the only loser and the only winner somewhere), in blocks used once and twice, in 2 and 3 blocks, in width-changing blocks (thorough: with every pair of plain kinds); '
+        'configurations: EVERY combination of winning branches x 3 representatives; oracle on the exported module tree AND on the exported fx graph nodes; '
+        'protocol "dc": the same exploration on a copy.deepcopy() of the converted SuperNet (copy taken fresh / after a no_grad hard forward / after an export of the '
+        'original; the original kept alive and required to stay unchanged) for every third program (quick) / every program (thorough), in addition to the direct exploration; '
+        'non-trivial = every (program, winners, representative), keys of deep-copy runs carry the suffix /dc<k>, keys of programs with fork branches show the frk* kinds')
+ASSUMPTIONS = ['"on every input" decided on a seeded witness batch', 'arg-max abstraction A2 (tie-free representatives with gaps >= 0.05)',
+               'deep copies are taken only at points where copy.deepcopy() of a SuperNet is possible at all: before any forward with autograd enabled '
+               '(theta_alpha becomes a non-leaf tensor attribute after one, and torch refuses to deep-copy it)']
 
 
 def bounds(tier):
-    return {'quick': {'blocks': '1..3', 'branches': '2..12', 'winner_combinations': 'complete'},
-            'thorough': {'blocks': '1..3', 'branches': '2..12', 'winner_combinations': 'complete', 'extra': 'all 4-subsets of branch kinds, twice-used second block'}}[tier]
+    return {'quick': {'blocks': '1..3', 'branches': '2..12', 'winner_combinations': 'complete', 'fork_branch_kinds': len(GS.FORK_KINDS),
+                      'deep_copy_protocol': 'every third program, copy moment rotating over 3'},
+            'thorough': {'blocks': '1..3', 'branches': '2..12', 'winner_combinations': 'complete', 'extra': 'all 4-subsets of branch kinds, twice-used second block',
+                         'fork_branch_kinds': len(GS.FORK_KINDS), 'deep_copy_protocol': 'every program, copy moment rotating over 3'}}[tier]
+
+
+FORK_KINDS = set(GS.FORK_KINDS)
+FUNC_END = {'fblk', 'frkl', 'frkf'}      # branch kinds whose last operation is a functional op
 
 
 def cases(tier, seed):
-    return [{'prog': p, 'tier': tier} for p in GS.gen(tier)]
+    progs = GS.gen(tier) + GS.gen_fork(tier)
+    out = [{'prog': p, 'tier': tier} for p in progs]
+    # deep-copy protocol: IN ADDITION to the direct exploration (which stays complete), the same exploration on a deep copy of the converted
+    # SuperNet; the moment of the copy rotates over the selected programs
+    k = 0
+    for i, p in enumerate(progs):
+        if tier == 'thorough' or i % 3 == 1:
+            out.append({'prog': p, 'tier': tier, 'dc': 1 + k % 3})
+            k += 1
+    return out
 
 
 def make(prog, seed, **kw):
@@ -55,17 +87,31 @@ def set_winners(combs, winners, rep, via=None):
 
 def has_fblk_winner(prog, winners):
     blocks = [s for s in prog['stages'] if s['op'] == 'sn']
-    return any(b['branches'][w] == 'fblk' for b, w in zip(blocks, winners))
+    return any(b['branches'][w] in FUNC_END for b, w in zip(blocks, winners))
+
+
+def branch_of(target, blk):
+    """index of the branch of block `blk` a qualified name lies in, None when it does not"""
+    pre = blk + '.sn_branches.'
+    if not str(target).startswith(pre):
+        return None
+    head = str(target)[len(pre):].split('.')[0]
+    return int(head) if head.isdigit() else None
 
 
 def run_case(case, seed):
     prog = case['prog']
     res = {'states': 0, 'transitions': 0, 'evals': 0, 'nontrivial': [], 'outcomes': set(), 'violations': []}
     base_case = {k: v for k, v in case.items() if k != 'only'}
-    ssig = _shape_sig(prog)
+    dc = int(case.get('dc', 0))
+    ssig = _shape_sig(prog) + (f'/dc{dc}' if dc else '')
+    dc_names = {1: 'copied-right-after-construction', 2: 'copied-after-hard-forward-of-the-original', 3: 'copied-after-export-of-the-original'}
 
     def add(kind, sig, msg, label):
         res['outcomes'].add(kind)
+        if dc:      # the signature names the protocol
+            sig = f'{sig}/on-deep-copy'
+            msg = f'[deep copy {dc_names[dc]}] {msg}'
         res['violations'].append({'kind': kind, 'sig': sig, 'msg': f'{ssig}: {label}: {msg}', 'case': dict(base_case, only=label)})
 
     try:
@@ -75,6 +121,34 @@ def run_case(case, seed):
         add('conversion-raises', 'conversion-raises', f'SuperNet() raised {type(e).__name__}: {str(e)[:200]}', None)
         res['outcomes'] = sorted(res['outcomes'])
         return res
+    orig = orig_sd = orig_y = None
+    if dc:
+        # deep-copy protocol: everything below runs on a deep copy; the original stays alive and is never written
+        orig = nas
+        try:
+            with torch.no_grad():
+                if dc == 2:
+                    orig.eval()
+                    orig.update_softmax_options(hard=True)
+                    orig(x)
+                elif dc == 3:
+                    orig.export()
+            nas = copy.deepcopy(orig)
+        except Exception as e:
+            res.update(states=1, evals=1)
+            add('deepcopy-raises', 'deepcopy-raises', f'copy.deepcopy(SuperNet) raised {type(e).__name__}: {str(e)[:200]}', None)
+            res['outcomes'] = sorted(res['outcomes'])
+            return res
+        model = None
+        with torch.no_grad():
+            orig.eval()
+            orig_y = orig(x)
+        orig_sd = {k: v.clone() for k, v in orig.state_dict().items()}
+        shared = [n for n, m in nas.named_modules() if any(m is mo for mo in orig.modules())]
+        ptrs = {t.data_ptr() for t in list(orig.parameters()) + list(orig.buffers()) if t.numel()}
+        shared += [n for n, t in list(nas.named_parameters()) + list(nas.named_buffers()) if t.numel() and t.data_ptr() in ptrs]
+        if shared:
+            add('copy-shares-state', 'copy-shares-state', f'the deep copy shares modules / tensors with the original: {shared[:4]}', None)
     nas.eval()
     nas.update_softmax_options(hard=True)
     combs = GS.combiners(nas)
@@ -95,7 +169,7 @@ def run_case(case, seed):
             res['states'] += 1
             res['transitions'] += len(winners)
             res['evals'] += 1
-            res['nontrivial'].append(f'{ssig}/{winners}/{rep}')
+            res['nontrivial'].append(f'{ssig}/{winners}/{rep}')       # (ssig names fork kinds and the deep-copy protocol)
             fb = has_fblk_winner(prog, winners)
             try:
                 with torch.no_grad():
@@ -135,8 +209,11 @@ def run_case(case, seed):
                 alive = sorted({int(n[len(blk) + len('.sn_branches.'):].split('.')[0]) for n in names if n.startswith(blk + '.sn_branches.')})
                 want = [w]
                 if alive != want and not (b['branches'][w] == 'id' and alive == []):
-                    add('wrong-branches-kept', 'wrong-branches-kept' + ('/winner-ends-in-functional-op' if fb else ''),
-                        f'block {blk}: exported network keeps branches {alive}, arg-max is {w} ({b["branches"][w]})', label)
+                    lf = any(b['branches'][i] in FORK_KINDS for i in alive if i != w and i < len(b['branches']))
+                    add('wrong-branches-kept', 'wrong-branches-kept' + ('/winner-ends-in-functional-op' if fb else '')
+                        + ('/losing-branch-with-internal-fork' if lf else ''),
+                        f'block {blk}: exported network keeps branches {alive} ({[b["branches"][i] for i in alive if i < len(b["branches"])]}), '
+                        f'arg-max is {w} ({b["branches"][w]})', label)
                 elif want:
                     # the surviving branch has all the leaf layers of the winning branch
                     src = [n for n, mm in nas.seed.named_modules()
@@ -145,6 +222,27 @@ def run_case(case, seed):
                     missing = [n for n in src if n not in names]
                     if missing:
                         add('winner-layers-missing', 'winner-layers-missing', f'block {blk}: layers {missing[:3]} of the winning branch are not in the exported network', label)
+            # exported fx graph: no call_module / get_attr node pointing into a losing branch or at a combiner, no node left without users
+            # (a layer of a discarded branch that stays in the graph keeps executing even when nothing consumes its result)
+            graph = getattr(exp, 'graph', None)
+            if graph is None:
+                add('export-not-a-graph-module', 'export-not-a-graph-module', f'export() returned {type(exp).__name__} without an fx graph', label)
+            else:
+                for (cn, m), w, b in zip(combs, winners, blocks):
+                    blk = cn[len('seed.'):].rsplit('.', 1)[0]
+                    stray = sorted({(str(nd.target), branch_of(nd.target, blk)) for nd in graph.nodes
+                                    if nd.op in ('call_module', 'get_attr') and branch_of(nd.target, blk) not in (None, w)})
+                    if stray:
+                        lk = sorted({b['branches'][i] for _, i in stray})
+                        add('loser-node-in-graph', 'loser-node-in-graph' + ('/losing-branch-with-internal-fork' if FORK_KINDS & set(lk) else ''),
+                            f'block {blk}: exported graph still calls {[t for t, _ in stray][:4]} of the discarded branches {lk}, arg-max is {w} ({b["branches"][w]})', label)
+                    if any(nd.op in ('call_module', 'get_attr') and str(nd.target) == cn[len('seed.'):] for nd in graph.nodes):
+                        add('combiner-survives', 'combiner-survives/graph-node', f'exported graph still calls {cn}', label)
+                dangling = [nd.name for nd in graph.nodes if nd.op not in ('output', 'placeholder') and len(nd.users) == 0]
+                if dangling:
+                    losers_fork = any(b['branches'][i] in FORK_KINDS for b, w in zip(blocks, winners) for i in range(len(b['branches'])) if i != w)
+                    add('dangling-node-in-graph', 'dangling-node-in-graph' + ('/losing-branch-with-internal-fork' if losers_fork else ''),
+                        f'exported graph has nodes whose result nobody uses: {dangling[:4]}', label)
             # outside choice blocks: same objects, unchanged parameters
             emods = dict(exp.named_modules())
             for n, (m, sd) in fixed_before.items():
@@ -193,8 +291,24 @@ def run_case(case, seed):
         except Exception as e:
             if not any(b == 'fblk' for blk in blocks for b in blk['branches']):
                 add('export-or-run-raises', 'export-or-run-raises/tied-maximum', f'{type(e).__name__}: {str(e)[:200]}', label)
+    if dc and only is None:
+        # the original the copy was taken from: never written above, so its parameters, buffers and hard-selection output are what they were
+        label = None        # (replay = the whole exploration of this program)
+        res['states'] += 1
+        res['evals'] += 1
+        changed = [k for k, v in orig.state_dict().items() if not torch.equal(v, orig_sd[k])]
+        if changed:
+            add('original-changed', 'original-changed', f'exploring the deep copy changed {changed[:4]} of the original SuperNet', label)
+        try:
+            with torch.no_grad():
+                orig.eval()
+                y2 = orig(x)
+            if not torch.equal(y2, orig_y):
+                add('original-changed', 'original-changed/output', f'output of the untouched original moved by {float((y2 - orig_y).abs().max()):.3g} while the copy was explored', label)
+        except Exception as e:
+            add('original-changed', 'original-changed/raises', f'{type(e).__name__}: {str(e)[:200]}', label)
     res['outcomes'] = sorted(res['outcomes'])
-    res['sample'] = {'prog': prog, 'blocks': [m.n_branches for _, m in combs], 'tie_states': len(tie_states)}
+    res['sample'] = {'prog': prog, 'dc': dc, 'blocks': [m.n_branches for _, m in combs], 'tie_states': len(tie_states)}
     return res
 
 
